@@ -71,6 +71,20 @@ def gen_args(rng, case):
         ncols = {"": 1, "control": N, "control+": N + 1}[o["grid"]]
         args.append({"what": "param", "idx": o["idx"], "grid": o["grid"], "slot": o["slot"], "len": o["len"],
                      "cols": [[jq(dyadic(rng, -2, 2, 2)) for _ in range(o["len"])] for _ in range(ncols)]})
+    # two global parameters (or variables) passed as one concatenated argument
+    used_p = set(a["idx"] for a in args if a["what"] == "param")
+    gp = [o for o in pobjs if o["grid"] == "" and o["idx"] not in used_p]
+    if len(gp) >= 2 and rng.random() < 0.7:
+        a_, b_ = gp[0], gp[1]
+        args.append({"what": "pcat", "idxs": [a_["idx"], b_["idx"]], "slots": [a_["slot"], b_["slot"]], "lens": [a_["len"], b_["len"]],
+                     "vals": [jq(dyadic(rng, -2, 2, 2)) for _ in range(a_["len"] + b_["len"])]})
+    used_v = set(tuple(a["obj"]) for a in args if a["what"] == "guess")
+    gv = [o for o in c10.objects(case) if o["g"] == "GV" and (o["kind"], o["idx"]) not in used_v
+          and not any(v is not None and o["slot"] <= v < o["slot"] + o["len"] for v in tv)]
+    if len(gv) >= 2 and rng.random() < 0.7:
+        a_, b_ = gv[0], gv[1]
+        args.append({"what": "vcat", "objs": [[a_["kind"], a_["idx"]], [b_["kind"], b_["idx"]]], "slots": [a_["slot"], b_["slot"]],
+                     "lens": [a_["len"], b_["len"]], "vals": [jq(dyadic(rng, -3, 3, 2)) for _ in range(a_["len"] + b_["len"])]})
     rng.shuffle(args)
     return args
 
@@ -142,6 +156,11 @@ def worker(args_):
             out["inputs"] = engine.impl_inputs(B, case)
             fargs, fvals = [], []
             for a in case["args"]:
+                if a["what"] in ("pcat", "vcat"):
+                    syms = [B.objs["p"][i] for i in a["idxs"]] if a["what"] == "pcat" else [B.objs[k_][i] for k_, i in a["objs"]]
+                    fargs.append(ocp.value(ca.vertcat(*syms)))
+                    fvals.append(ca.DM([float(Fr(v)) for v in a["vals"]]))
+                    continue
                 M_ = arg_matrix(a)
                 if a["what"] == "param":
                     p = B.objs["p"][a["idx"]]
@@ -165,6 +184,12 @@ def worker(args_):
             o2.solver(*SOLVER)
             apply_calls0(B2, o2, case, ca)
             for a in case["args"]:
+                if a["what"] == "pcat":
+                    o2.set_value(ca.vertcat(*[B2.objs["p"][i] for i in a["idxs"]]), ca.DM([float(Fr(v)) for v in a["vals"]]))
+                    continue
+                if a["what"] == "vcat":
+                    o2.set_initial(ca.vertcat(*[B2.objs[k_][i] for k_, i in a["objs"]]), ca.DM([float(Fr(v)) for v in a["vals"]]))
+                    continue
                 M_ = arg_matrix(a)
                 val = M_[:, 0] if M_.shape[1] == 1 and a.get("g") == "GV" or (a["what"] == "param" and a["grid"] == "") else M_
                 if a["what"] == "param":
@@ -210,6 +235,11 @@ def model_calls(case):
     for a in case["args"]:
         if a["what"] == "guess":
             calls.append({"g": a["g"], "slot": a["slot"], "len": a["len"], "form": "cols", "value": a["cols"]})
+        if a["what"] == "vcat":
+            off = 0
+            for slot, n in zip(a["slots"], a["lens"]):
+                calls.append({"g": "GV", "slot": slot, "len": n, "form": "cols", "value": [a["vals"][off:off + n]]})
+                off += n
     return calls
 
 
@@ -219,6 +249,12 @@ def model_pvals(case):
         if a["what"] == "param" and a["grid"] == "":
             for j in range(a["len"]):
                 p[a["slot"] + j] = Fr(a["cols"][0][j])
+        if a["what"] == "pcat":
+            off = 0
+            for slot, n in zip(a["slots"], a["lens"]):
+                for j in range(n):
+                    p[slot + j] = Fr(a["vals"][off + j])
+                off += n
     return [jq(v) for v in p]
 
 
@@ -377,7 +413,7 @@ def run_cases(cps, lqs, name, jobs=16):
     dis, nontriv, dist = [], set(), {}
     for i, (case, _) in enumerate(cps):
         for a in case["args"]:
-            key = "%s/%s" % (case["method"]["kind"], a.get("g") or ("P" + a["grid"]))
+            key = "%s/%s" % (case["method"]["kind"], a.get("g") or (a["what"] if a["what"] in ("pcat", "vcat") else "P" + a["grid"]))
             dist[key] = dist.get(key, 0) + 1
         d = judge_case(case, rr[i], mv.get(i))
         if d is None:
